@@ -261,10 +261,16 @@ def p2sh_shape_cases(draw):
     """scripts of the pay-to-script-hash shape (HASH160 <20 bytes> EQUAL) with the preimage on the stack: as a legacy script under the P2SH flag the
     preimage is then run as a script; as a witness script / tapscript leaf, or without the flag, the shape means nothing"""
     inner = draw(st.one_of(st.sampled_from([b'\x51', b'\x00', b'\x6a', b'\x51\x51\x93', b'\x75\x51', b'\x63\x51\x68', b'', b'\xff', b'\x4c', b'\x52\x53\x94']), st.binary(max_size=12), G.grammar_script(max_ops=8).map(lambda t: t[0])))
+    below = [draw(G.small_values) for _ in range(draw(st.integers(0, 3)))]
+    if draw(st.integers(0, 4)) == 0:
+        # a redeem script that itself has the pay-to-script-hash shape: it is an ordinary script (pay-to-script-hash is evaluated once), the item
+        # below it is compared with the hash and never run
+        x = draw(st.sampled_from([b'\x51\x52', b'\x6a', b'\x00', b'\x51', b'abc']))
+        inner = b'\xa9\x14' + (R.ripemd(R.sha256(x)) if draw(st.integers(0, 4)) else bytes(20)) + b'\x87'
+        below = below + [x]
     h = R.ripemd(R.sha256(inner))
     if draw(st.integers(0, 7)) == 0:
         h = bytes(20)
-    below = [draw(G.small_values) for _ in range(draw(st.integers(0, 3)))]
     stack = below + ([inner] if draw(st.integers(0, 9)) else [])
     return dict(script=b'\xa9\x14' + h + b'\x87', stack=stack, flags=draw(G.flagsets()) | (F['P2SH'] if draw(st.integers(0, 3)) else 0), sv=draw(st.sampled_from(G.SIGVERS)), tx=None, cls='p2sh-shape')
 
